@@ -270,6 +270,29 @@ func c01Request(r *kernel.Run, w *World, tp *kernel.Tape, ids []*Ident, inter, o
 			sp.Rewrapped, _ = proto.Marshal(bi)
 		}
 	}
+	// fields of the signed bundle that are meant for the library's own use ("key id derived from the public key", "populated
+	// with decrypted values") - the node signs the bundle, so it can fill them with anything
+	fillClass := Pick2(tp, "none", "none", "none", "id-of-other-node", "id-garbage", "cached-registration-info", "cached-registration-info+id-of-other-node")
+	if strings.Contains(fillClass, "id-of-other-node") {
+		o := ids[(indexOf(ids, cert)+1+tp.Draw(len(ids)))%len(ids)]
+		if o == cert {
+			o = inter
+		}
+		sp.Id = o.KeyId
+	}
+	if fillClass == "id-garbage" {
+		sp.Id = "not-a-key-id"
+	}
+	if strings.Contains(fillClass, "cached-registration-info") {
+		sp.Cached = regInfoFor(nonce, cert.Pkix)
+		if wrapClass == "none" && tp.Draw(2) == 0 {
+			wrapClass = "garbage"
+			sp.Wrapped = tp.Bytes(tp.Range(1, 60))
+		}
+	}
+	if fillClass != "none" {
+		r.Count("fault.library_internal_fields_filled_by_node", 1)
+	}
 	req, _ := BuildFetch(sp)
 
 	// ---- reference model: may this request be answered with credentials?
@@ -308,6 +331,9 @@ func c01Request(r *kernel.Run, w *World, tp *kernel.Tape, ids []*Ident, inter, o
 		known = "known-key"
 	}
 	class := fmt.Sprintf("%s/nonce-%s/enc-%s/wrap-%s", known, nonceClass, encClass, wrapClass)
+	if fillClass != "none" {
+		class += "/filled-" + fillClass
+	}
 	desc := fmt.Sprintf("%s cert=%s regWrapper=%v tokLive=%v backend=%s -> issued=%v err=%s", class, cert.Name, w.RW != nil, tokLive, w.Backend, issued, shortErr(err))
 	*hist = append(*hist, "fetch "+desc)
 	r.Count("ops.fetch", 1)
@@ -344,6 +370,20 @@ func c01Request(r *kernel.Run, w *World, tp *kernel.Tape, ids []*Ident, inter, o
 			}
 		}
 		_ = opened
+		// the record behind an issued response is the one of the request's certificate key; nobody else's record moved
+		if after[cert.KeyId] == nil {
+			r.Violate("issue-only-authorized", "issued-without-record-of-request-key", "credentials issued but no node record is stored under the request key's ID: %s", desc)
+		}
+		for id, b := range before {
+			if id != cert.KeyId && !bytes.Equal(after[id], b) {
+				r.Violate("issue-only-authorized", "issue-changed-other-record", "answering a request of key %s changed or removed the record %s: %s", cert.KeyId, id, desc)
+			}
+		}
+		for id := range after {
+			if id != cert.KeyId && before[id] == nil {
+				r.Violate("issue-only-authorized", "issue-created-foreign-record", "answering a request of key %s created a record under %s: %s", cert.KeyId, id, desc)
+			}
+		}
 		recs[cert.KeyId] = &recModel{nonce, enc}
 		if condC && w.Backend == "storeonce" && rec != nil {
 			recs[cert.KeyId] = rec
